@@ -232,6 +232,7 @@ int lltd_port_get_icon_image(void **out_data, size_t *out_size) {
     void *p = lltd_port_malloc(W.host.icon_size ? W.host.icon_size : 1);
     if (!p) return -1;
     memcpy(p, W.host.icon, W.host.icon_size);
+    for (size_t i = 0; i < W.host.icon_size; i += 97) ((uint8_t *)p)[i] ^= (uint8_t)(W.env.icon_epoch * 0x3B);
     *out_data = p; *out_size = W.host.icon_size; return 0;
 }
 int lltd_port_get_friendly_name(void **out_data, size_t *out_size) {
@@ -390,6 +391,7 @@ void vf_world_reset(void) {
     if (core_bss_size) raw_zero(__start_core_bss, core_bss_size);
     if (core_data_size) raw_copy(__start_core_data, core_data_image, core_data_size);
     W.now_ms = 1000000;
+    memset(&W.env, 0, sizeof W.env);
     memset(&W.led, 0, sizeof W.led);
     vf_faultplan keep = W.fp;
     memset(&W.fp, 0, sizeof W.fp);
@@ -403,7 +405,7 @@ void vf_world_reset(void) {
 /* ------------------------------------------------------- snapshot / canon */
 #ifndef VF_SAN
 vf_snap *vf_snapshot(const void *model, size_t model_size) {
-    size_t n = sizeof AH + AH.brk + core_bss_size + core_data_size + sizeof W.now_ms + sizeof W.led + model_size;
+    size_t n = sizeof AH + AH.brk + core_bss_size + core_data_size + sizeof W.now_ms + sizeof W.led + sizeof W.env + model_size;
     vf_snap *s = malloc(sizeof *s + n);
     if (!s) vf_harness_error("out of memory for snapshot");
     s->size = (uint32_t)n;
@@ -414,6 +416,7 @@ vf_snap *vf_snapshot(const void *model, size_t model_size) {
     if (core_data_size) { memcpy(p, __start_core_data, core_data_size); p += core_data_size; }
     memcpy(p, &W.now_ms, sizeof W.now_ms); p += sizeof W.now_ms;
     memcpy(p, &W.led, sizeof W.led); p += sizeof W.led;
+    memcpy(p, &W.env, sizeof W.env); p += sizeof W.env;
     if (model_size) memcpy(p, model, model_size);
     return s;
 }
@@ -425,6 +428,7 @@ void vf_restore(const vf_snap *s, void *model, size_t model_size) {
     if (core_data_size) { memcpy(__start_core_data, p, core_data_size); p += core_data_size; }
     memcpy(&W.now_ms, p, sizeof W.now_ms); p += sizeof W.now_ms;
     memcpy(&W.led, p, sizeof W.led); p += sizeof W.led;
+    memcpy(&W.env, p, sizeof W.env); p += sizeof W.env;
     if (model_size) memcpy(model, p, model_size);
 }
 
@@ -485,7 +489,7 @@ size_t vf_canon(uint8_t *out, size_t cap) {
     for (uint32_t o = 0; o < AH.brk; o += blk_span(((blk *)(arena + o))->size)) { cn_ord[cn_nblocks] = -1; cn_index[cn_nblocks++] = o; }
     cn_qn = 0;
     size_t pos = 0;
-    if (cn_nblocks == 0) { cn_nblocks = 0; }
+    memcpy(out, &W.env, sizeof W.env); pos = sizeof W.env;
     pos = emit_region(__start_core_bss, core_bss_size, out, pos, cap);
     if (core_data_size) pos = emit_region(__start_core_data, core_data_size, out, pos, cap);
     uint32_t qi = 0;
